@@ -196,3 +196,131 @@ Qed.
 
 Theorem add_root_wfsb s n shp s' : blank_s s -> add_root s n shp = Some s' -> wfsb s' = true.
 Proof. intros B Ha. apply wfs_wfsb. apply (add_root_wfs s n shp s' B Ha). Qed.
+
+(* ---- insert_identity ---------------------------------------------------------------------------------------------------- *)
+(* the relabelling of the atom table: the atoms of the child's tensor get the fresh wire in place of the
+   child's old parent wire *)
+Definition ii_sub (cw w : wire) (x : wire) : wire := if Nat.eqb x cw then w else x.
+Definition ii_relab (atms : list nat) (cw w : wire) (aw : nat * list wire) : nat * list wire :=
+  if memb (fst aw) atms then (fst aw, map (ii_sub cw w) (snd aw)) else aw.
+
+Lemma insert_identity_atab s c p new s' :
+  insert_identity s c p new = Some s' ->
+  exists cn ct, aget c (nodes s) = Some cn /\ aget c (tensors s) = Some ct /\
+    atab s' = map (ii_relab (atoms ct) (ii_cw cn ct) (next_wire s)) (atab s ++ [(next_atom s, [ii_cw cn ct; next_wire s])]).
+Proof.
+  unfold insert_identity.
+  destruct (aget c (nodes s)) as [cn|] eqn:Ec; [|discriminate].
+  destruct (aget p (nodes s)) as [pn|] eqn:Ep; [|discriminate].
+  destruct (aget c (tensors s)) as [ct|] eqn:Et; [|discriminate].
+  destruct (parent cn) as [q|] eqn:Eq; cbn [negb]; [|discriminate].
+  destruct (Nat.eqb_spec q p) as [->|Hne]; cbn [negb]; [|discriminate].
+  destruct (memb c (children pn)) eqn:Hm; cbn [negb]; [|discriminate].
+  destruct (amem new (nodes s)) eqn:Hnew; [discriminate|].
+  unfold replace_neighbour at 1. rewrite Eq, Nat.eqb_refl.
+  destruct (replace_neighbour pn c new) as [pn'|] eqn:Epn'; [|discriminate].
+  cbn [fresh_wires fresh_atom hd].
+  set (d := wdim s (nth (nth 0 (perm cn) 0) (axes ct) 0)).
+  change (open_leg_to_parent (new_node [d; d]) p 0)
+    with (Some {| parent := Some p; children := []; perm := [0; 1]; shape := [d; d] |}).
+  cbv iota beta.
+  change (open_leg_to_child {| parent := Some p; children := []; perm := [0; 1]; shape := [d; d] |} c 1)
+    with (Some (ii_node p c d)).
+  cbv iota beta. intros [= <-]. exists cn, ct. split; [reflexivity|]. split; [reflexivity|]. reflexivity.
+Qed.
+
+Lemma aget_map_key {V} (f : nat * V -> nat * V) k l :
+  (forall kv, fst (f kv) = fst kv) -> aget k (map f l) = option_map (fun v => snd (f (k, v))) (aget k l).
+Proof.
+  intros Hf. induction l as [|[k' v'] t IH]; cbn; [reflexivity|].
+  pose proof (Hf (k', v')) as E. destruct (f (k', v')) as [k2 v2] eqn:Ef. cbn in E. subst k2.
+  destruct (Nat.eqb_spec k k') as [->|Hne]; [cbn; rewrite Ef; reflexivity|exact IH].
+Qed.
+
+Lemma ii_relab_fst atms cw w aw : fst (ii_relab atms cw w aw) = fst aw.
+Proof. unfold ii_relab. destruct (memb (fst aw) atms); reflexivity. Qed.
+
+Lemma akeys_map_key {V} (f : nat * V -> nat * V) l : (forall kv, fst (f kv) = fst kv) -> akeys (map f l) = akeys l.
+Proof. intros Hf. unfold akeys. rewrite map_map. apply map_ext. exact Hf. Qed.
+
+(* the wires of every atom after an insert_identity *)
+Lemma insert_identity_atom_wires s c p new s' :
+  wfs s -> insert_identity s c p new = Some s' ->
+  exists cn ct, aget c (nodes s) = Some cn /\ aget c (tensors s) = Some ct /\
+    (forall a, In a (atoms ct) -> atom_wires s' a = map (ii_sub (ii_cw cn ct) (next_wire s)) (atom_wires s a)) /\
+    (forall a, ~ In a (atoms ct) -> a <> next_atom s -> atom_wires s' a = atom_wires s a) /\
+    atom_wires s' (next_atom s) = [ii_cw cn ct; next_wire s] /\
+    akeys (atab s') = akeys (atab s) ++ [next_atom s].
+Proof.
+  intros WS Hi. destruct (insert_identity_atab _ _ _ _ _ Hi) as (cn & ct & Ec & Et & Etab).
+  exists cn, ct. split; [exact Ec|]. split; [exact Et|].
+  pose proof (atab_fresh s (next_atom s) WS (le_n _)) as Hfr.
+  assert (Hna : ~ In (next_atom s) (atoms ct)).
+  { intros Hin. pose proof (ws_atoms_lt s WS _ (total_atoms_In s c ct _ (aget_In _ _ _ Et) Hin)). lia. }
+  assert (Hget : forall a, aget a (atab s') =
+            option_map (fun v => snd (ii_relab (atoms ct) (ii_cw cn ct) (next_wire s) (a, v)))
+              (aget a (atab s ++ [(next_atom s, [ii_cw cn ct; next_wire s])])))
+    by (intros a; rewrite Etab; apply aget_map_key; intros kv; apply ii_relab_fst).
+  split; [|split; [|split]].
+  - intros a Ha. unfold atom_wires. rewrite Hget, aget_snoc_other by (intros ->; contradiction).
+    destruct (aget a (atab s)) as [v|]; cbn; [|reflexivity]. unfold ii_relab. cbn [fst snd].
+    apply InvProofs.memb_In in Ha. rewrite Ha. reflexivity.
+  - intros a Ha Hne. unfold atom_wires. rewrite Hget, aget_snoc_other by exact Hne.
+    destruct (aget a (atab s)) as [v|]; cbn; [|reflexivity]. unfold ii_relab. cbn [fst snd].
+    apply memb_false in Ha. rewrite Ha. reflexivity.
+  - unfold atom_wires. rewrite Hget, InvProofs.aget_app, Hfr. cbn. rewrite Nat.eqb_refl. cbn. unfold ii_relab. cbn [fst snd].
+    apply memb_false in Hna. rewrite Hna. reflexivity.
+  - rewrite Etab, akeys_map_key by (intros kv; apply ii_relab_fst). apply akeys_app.
+Qed.
+
+Theorem insert_identity_preserves_wfs s c p new s' : wfs s -> insert_identity s c p new = Some s' -> wfs s'.
+Proof.
+  intros WS Hi. pose proof (ws_wf s WS) as W. pose proof (insert_identity_preserves_wf s c p new s' W Hi) as W'.
+  pose proof (insert_identity_total_ends s c p new s' W Hi) as PE.
+  pose proof (insert_identity_total_atoms s c p new s' W Hi) as EA.
+  destruct (insert_identity_atom_wires s c p new s' WS Hi) as (cn & ct & Ec & Et & Hw1 & Hw2 & Hw3 & Hkeys).
+  destruct (insert_identity_facts s c p new s' W Hi)
+    as (cn' & pn & ct' & pm & L' & Ec' & Ep & Et' & Epar & Hin & Hnew & Hpc & Hnp & Hnc & Epm & Hjni & Hjlt & _ & _ & _ & Hcwlt & _ & ET & _ & _ & Nw' & Na').
+  rewrite Ec in Ec'. injection Ec' as <-. rewrite Et in Et'. injection Et' as <-.
+  pose proof (proj2 (proj1 (wfs_iff_sem_ok s) WS)) as [H1 H2 H3 H4 H5 H6 H7].
+  assert (Hnt : aget new (tensors s) = None).
+  { destruct (aget new (tensors s)) as [v|] eqn:Ev; [|reflexivity].
+    assert (amem new (nodes s) = true) by (apply (wf_tn s W); apply amem_aget; eauto).
+    apply amem_aget in H. destruct H as [x Hx]. congruence. }
+  apply wfs_iff_sem_ok. split; [exact W'|]. constructor.
+  - intros k t E. rewrite ET, aget_aset in E. destruct (Nat.eqb_spec k new) as [->|Hkn].
+    + injection E as <-. unfold ii_nt. intros a [<-|[]] x Hx. left. cbn [axes]. rewrite Hw3 in Hx. exact Hx.
+    + rewrite aget_aset in E. destruct (Nat.eqb_spec k c) as [->|Hkc].
+      * injection E as <-. unfold ii_ct. intros a Ha x Hx. cbn [atoms] in Ha. cbn [axes bnd].
+        rewrite (Hw1 a Ha) in Hx. apply in_map_iff in Hx. destruct Hx as (y & <- & Hy). unfold ii_sub.
+        destruct (Nat.eqb_spec y (ii_cw cn ct)) as [->|Hy'].
+        -- left. rewrite <- (nth_set_nth_same (ii_j cn) (next_wire s) (axes ct) 0 Hjlt) at 1.
+           apply nth_In. rewrite set_nth_length. exact Hjlt.
+        -- destruct (H1 c ct Et a Ha y Hy) as [Hax|Hbn]; [left|right; exact Hbn].
+           destruct (In_nth _ _ (0 : wire) Hax) as (i0 & Hi0 & <-).
+           assert (Hij : i0 <> ii_j cn) by (intros ->; apply Hy'; reflexivity).
+           unfold wire in *.
+           rewrite <- (nth_set_nth_other i0 (ii_j cn) (next_wire s) (axes ct) 0 Hij).
+           apply nth_In. rewrite set_nth_length. exact Hi0.
+      * intros a Ha x Hx.
+        assert (Hnc' : ~ In a (atoms ct)).
+        { intros Hac. unfold total_atoms in H4. apply (NoDup_flat_map_assoc _ _ (wf_tnd s W)) in H4. destruct H4 as [_ Hd].
+          apply Hkc. apply (Hd k t c ct a E Et Ha Hac). }
+        assert (Hlt : a <> next_atom s).
+        { intros ->. pose proof (H5 _ (total_atoms_In s k t _ (aget_In _ _ _ E) Ha)). lia. }
+        rewrite (Hw2 a Hnc' Hlt) in Hx. apply (H1 k t E a Ha x Hx).
+  - intros z. rewrite (proj1 (Permutation_count_occ Nat.eq_dec _ _) PE z). cbn [count_occ]. specialize (H2 z).
+    destruct (Nat.eq_dec (next_wire s) z) as [<-|Hne]; [|exact H2].
+    assert (Hn : ~ In (next_wire s) (total_ends s)) by (intros Hz; pose proof (H3 _ Hz); lia).
+    apply (count_occ_not_In Nat.eq_dec) in Hn. nlia.
+  - intros z Hz. rewrite Nw'. apply (Permutation_in _ PE) in Hz. destruct Hz as [<-|[<-|Hz]]; [lia|lia|]. pose proof (H3 z Hz). lia.
+  - rewrite EA. apply NoDup_app_iff. split; [exact H4|]. split; [constructor; [intros []|constructor]|].
+    intros a Ha [<-|[]]. pose proof (H5 _ Ha). lia.
+  - intros a Ha. rewrite EA in Ha. rewrite Na'. apply in_app_or in Ha. destruct Ha as [Ha|[<-|[]]]; [pose proof (H5 _ Ha); lia|lia].
+  - intros a Ha. apply amem_true. rewrite Hkeys. rewrite EA in Ha. apply in_app_or in Ha. apply in_or_app.
+    destruct Ha as [Ha|Ha]; [left; apply amem_true; apply (H6 _ Ha)|right; exact Ha].
+  - intros a Ha. rewrite Hkeys in Ha. rewrite Na'. apply in_app_or in Ha. destruct Ha as [Ha|[<-|[]]]; [pose proof (H7 _ Ha); lia|lia].
+Qed.
+
+Theorem insert_identity_preserves_wfsb s c p new s' : wfsb s = true -> insert_identity s c p new = Some s' -> wfsb s' = true.
+Proof. intros H Ha. apply wfs_wfsb. apply (insert_identity_preserves_wfs s c p new s'); [apply wfsb_wfs; exact H|exact Ha]. Qed.
